@@ -118,13 +118,7 @@ def same_py(a, b):
 
 def run(ctx, args):
     quick = ctx.tier == "quick"
-    famprogs = optfamily.programs(3)
-    if quick:
-        # quick tier: all sequences of length <= 2, the copy chains, the whole second alphabet, and a seeded third of the 2744 sequences of length 3
-        import random
-        three = [x for x in famprogs if len(x[0].split("-")) == 3 and all(nm in optfamily.TEMPLATES for nm in x[0].split("-"))]
-        keep = set(id(x) for x in random.Random(ctx.seed).sample(three, len(three) // 3))
-        famprogs = [x for x in famprogs if x not in three or id(x) in keep]
+    famprogs = optfamily.quick_family(ctx.seed) if quick else optfamily.programs(3)
     if not quick:
         # all sequences of length 4 would be 38 416 more programs x 2 levels x 3 inputs: a seeded sample of 1 500 of them
         import random
